@@ -8,6 +8,7 @@ import (
 	_ "verifmc/checks/c13"
 	_ "verifmc/checks/c14"
 	_ "verifmc/checks/c15"
+	_ "verifmc/checks/c16"
 	_ "verifmc/checks/c18"
 	_ "verifmc/checks/lease"
 	_ "verifmc/checks/optplug"
